@@ -1,6 +1,9 @@
 package main
 
 import (
+	"os/exec"
+	"os"
+	"bytes"
 	"context"
 	"fmt"
 	"net/http"
@@ -13,7 +16,10 @@ import (
 	"github.com/a-h/templ/cmd/templ/generatecmd/sse"
 )
 
-func init() { register("C19", runC19) }
+func init() {
+	register("C19", runC19)
+	register("C19stress", runC19Stress)
+}
 
 // recWriter records the events a client receives (ignoring pings).
 type recWriter struct {
@@ -190,7 +196,14 @@ func c19Run(actions []string, snapshotAt int) c19Obs {
 				}
 			}
 			w.mu.Unlock()
-			w.h.Send("message", fmt.Sprint(nextEvent))
+			// the broadcaster must never wait for a client: Send returns whatever the deliveries are doing
+			sendDone := make(chan struct{})
+			go func(ev int) { w.h.Send("message", fmt.Sprint(ev)); close(sendDone) }(nextEvent)
+			select {
+			case <-sendDone:
+			case <-time.After(2 * time.Second):
+				obs.note += "broadcast-did-not-return;"
+			}
 			for k := 0; k < n; k++ {
 				select {
 				case <-w.arrive:
@@ -399,6 +412,7 @@ func runC19(e *emitter, tier string, seed uint64) {
 		return
 	}
 	c19SlowReader(e)
+	c19Stress(e, tier)
 	// the witness of the repaired defect and small hand-written churn schedules
 	for _, s := range [][]string{
 		{"s1", "b", "c1", "e1", "x1.0"},
@@ -601,4 +615,102 @@ func c19SlowReader(e *emitter) {
 	cancel()
 	wg.Wait()
 	e.emit("slowreader", "slow", fmt.Sprint(n), fmt.Sprint(len(slow.got())), fmt.Sprint(len(fast.got())), b01(fastOK), b01(slowOK), fmt.Sprint(fastAt.Milliseconds()))
+}
+
+// runC19Stress is a child process (a fatal runtime error - concurrent map iteration and map write - cannot be recovered):
+// resident clients stay subscribed, other goroutines subscribe and leave in a loop, and events are broadcast back to
+// back, all truly in parallel. Every resident client must have received every event.
+func runC19Stress(e *emitter, tier string, seed uint64) {
+	c19Current = nil
+	h := sse.New()
+	dur := 1200 * time.Millisecond
+	if tier == "thorough" {
+		dur = 6 * time.Second
+	}
+	residents := make([]*recWriter, 32)
+	ctx, cancel := context.WithCancel(context.Background())
+	var rwg sync.WaitGroup
+	for i := range residents {
+		residents[i] = &recWriter{hdr: http.Header{}}
+		rwg.Add(1)
+		go func(w *recWriter) {
+			defer rwg.Done()
+			h.ServeHTTP(w, httptest.NewRequest("GET", "/", nil).WithContext(ctx))
+		}(residents[i])
+	}
+	time.Sleep(100 * time.Millisecond)
+	stop := make(chan struct{})
+	var cwg sync.WaitGroup
+	for g := 0; g < 8; g++ {
+		cwg.Add(1)
+		go func() {
+			defer cwg.Done()
+			for {
+				select {
+				case <-stop:
+					return
+				default:
+				}
+				cctx, ccancel := context.WithCancel(context.Background())
+				done := make(chan struct{})
+				go func() {
+					h.ServeHTTP(&recWriter{hdr: http.Header{}}, httptest.NewRequest("GET", "/", nil).WithContext(cctx))
+					close(done)
+				}()
+				time.Sleep(time.Duration(50+seed%50) * time.Microsecond)
+				ccancel()
+				<-done
+			}
+		}()
+	}
+	sent := 0
+	for t0 := time.Now(); time.Since(t0) < dur; {
+		h.Send("message", fmt.Sprint(sent))
+		sent++
+		if sent%64 == 0 {
+			time.Sleep(200 * time.Microsecond)
+		}
+	}
+	close(stop)
+	cwg.Wait()
+	missing := 0
+	ok := waitFor(func() bool {
+		for _, w := range residents {
+			if len(w.got()) < sent {
+				return false
+			}
+		}
+		return true
+	}, 5*time.Second)
+	if !ok {
+		for _, w := range residents {
+			if len(w.got()) < sent {
+				missing++
+			}
+		}
+	}
+	cancel()
+	rwg.Wait()
+	fmt.Fprintf(e.w, "STRESS sent=%d missing=%d\n", sent, missing)
+}
+
+func c19Stress(e *emitter, tier string) {
+	if !e.mine("stress") {
+		return
+	}
+	self, _ := os.Executable()
+	cmd := exec.Command(self, "C19stress", "-tier", tier)
+	var stderr bytes.Buffer
+	cmd.Stderr = &stderr
+	out, err := cmd.Output()
+	status, sent, missing := "ok", 0, 0
+	if n, _ := fmt.Sscanf(strings.TrimSpace(string(out)), "STRESS sent=%d missing=%d", &sent, &missing); n != 2 || err != nil {
+		status = fmt.Sprintf("child failed: %v", err)
+		if i := strings.Index(stderr.String(), "fatal error:"); i >= 0 {
+			status = strings.SplitN(stderr.String()[i:], "\n", 2)[0]
+		} else if i := strings.Index(stderr.String(), "panic:"); i >= 0 {
+			status = strings.SplitN(stderr.String()[i:], "\n", 2)[0]
+		}
+	}
+	e.emit("stress", "stress", hx(status), fmt.Sprint(sent), fmt.Sprint(missing))
 }
